@@ -123,6 +123,30 @@ theorem quoted_argument_is_literal (P : Params) (s : Stack) (t : Str) :
   simp only [resolveArgument, htrim]
   simp [hlast]
 
+/-- inside a literal opened by `q` every character other than `q` — the other kind of quote and commas included — belongs to the literal;
+    only `q` closes it -/
+theorem literal_scanned_to_its_own_quote (q : Char) (t rest cur : Str) (acc : List Str) (hq : ∀ c ∈ t, c ≠ q) :
+    parseArgsAux (t ++ q :: rest) cur (some q) acc = parseArgsAux rest (cur ++ t ++ [q]) none acc := by
+  induction t generalizing cur with
+  | nil => simp [parseArgsAux]
+  | cons c r ih =>
+    have hc : (c == q) = false := by simpa using hq c (by simp)
+    simp only [List.cons_append, parseArgsAux, hc, Bool.false_eq_true, ↓reduceIte]
+    rw [ih (cur ++ [c]) (fun x hx => hq x (by simp [hx]))]
+    simp
+
+/-- … so a double-quoted literal followed by a comma is ONE argument, whatever apostrophes and commas it contains, and the arguments
+    after it are split as if it were not there -/
+theorem quoted_literal_is_one_argument (t rest : Str) (acc : List Str) (hq : ∀ c ∈ t, c ≠ '"') :
+    parseArgsAux ('"' :: t ++ '"' :: ',' :: rest) [] none acc = parseArgsAux rest [] none (acc ++ [trimSpace ('"' :: t ++ ['"'])]) := by
+  have h1 : parseArgsAux ('"' :: t ++ '"' :: ',' :: rest) [] none acc = parseArgsAux (t ++ '"' :: ',' :: rest) ['"'] (some '"') acc := by
+    simp [parseArgsAux]
+  rw [h1, literal_scanned_to_its_own_quote '"' t (',' :: rest) ['"'] acc hq]
+  have hne : (['"'] ++ t ++ ['"'] == []) = false := by simp
+  simp [parseArgsAux, hne]
+
+example : parseArgs "\"it's, you\", 'a \"b\", c', x".toList = ["\"it's, you\"".toList, "'a \"b\", c'".toList, "x".toList] := by decide
+
 example : parseArgs "\"s\", '', x".toList = ["\"s\"".toList, "''".toList, "x".toList] := by decide
 
 /-- PARTIAL statement of "same value wherever it is allowed": it holds for operator expressions (above) and for plain paths … -/
